@@ -53,6 +53,10 @@ var families = []family{
 	{"many-lines", func(n int) string { return "SELECT\n" + join(n, func(i int) string { return fmt.Sprintf("  c%d", i) }, ",\n") + "\nFROM t" }},
 	{"comment-lines", func(n int) string { return join(n, func(i int) string { return fmt.Sprintf("-- comment number %d", i) }, "\n") + "\nSELECT 1" }},
 	{"block-comments", func(n int) string { return "SELECT " + join(n, func(i int) string { return "/* c */" }, " ") + " 1" }},
+	{"block-comment-lines", func(n int) string { return join(n, func(i int) string { return fmt.Sprintf("/* note %d */ SELECT %d;", i, i) }, "\n") }},
+	{"comment-only-lines", func(n int) string { return join(n, func(i int) string { return "/* c */" }, "\n") + "\nSELECT 1" }},
+	{"blanks-then-comments", func(n int) string { return strings.Repeat(" ", n*5) + join(n, func(i int) string { return "/*c*/" }, "") + " SELECT 1" }},
+	{"indented-lines", func(n int) string { return "SELECT\n" + join(n, func(i int) string { return strings.Repeat(" ", 40) + fmt.Sprintf("c%d", i) }, ",\n") + "\nFROM t" }},
 	{"or-chain", func(n int) string { return "SELECT a FROM t WHERE " + join(n, func(i int) string { return fmt.Sprintf("a = %d", i) }, " OR ") }},
 	{"and-chain", func(n int) string { return "SELECT a FROM t WHERE " + join(n, func(i int) string { return fmt.Sprintf("c%d > %d", i, i) }, " AND ") }},
 	{"plus-chain", func(n int) string { return "SELECT " + join(n, func(i int) string { return fmt.Sprintf("c%d", i) }, " + ") + " FROM t" }},
